@@ -80,6 +80,14 @@ Step(e) ==
                              ELSE UNCHANGED <<ob, armed, junk, autoStopped>>
                           /\ UNCHANGED <<tape, cursor, bad>>
       [] e.ev = "stop" -> UNCHANGED <<tape, ob, armed, junk, autoStopped, cursor, bad>>
+      \* the fast loader took the next block of a tape that stands at a block boundary with the deck stopped (fresh, or
+      \* with earlier blocks taken the same way): the listener who presses PLAY next hears the tape from the block behind it
+      [] e.ev = "fastblock" ->
+            /\ \E o \in {IF autoStopped THEN ObInit ELSE ob} :
+                  ob' = IF o.blk < Len(tape) THEN [o EXCEPT !.blk = @ + 1, !.decoded = @ + 1]
+                        ELSE [o EXCEPT !.stage = "end", !.decoded = @ + 1]
+            /\ armed' = FALSE /\ junk' = 0 /\ autoStopped' = FALSE
+            /\ UNCHANGED <<tape, cursor, bad>>
       [] e.ev = "rewind" -> Fresh /\ autoStopped' = FALSE /\ cursor' = 1 /\ UNCHANGED <<tape, bad>>
       [] e.ev = "edge" -> Edge(e)
       \* the player gave up (an error from process_clocks / rewind, or no end) on a well-formed tape
